@@ -35,6 +35,8 @@ let engines : (string * (z list -> (z list * z list) list -> verdict)) list = [
   ("codec", chk_codec);
   ("mapelems", chk_mapelems);
   ("decode", chk_decode);
+  ("batch", chk_batch);
+  ("maptree", chk_maptree);
 ]
 
 let () =
